@@ -524,4 +524,85 @@ theorem filterMap_pullEvent (p : Option (Pred ι μ)) (proj : μ → μ) (cs : L
     | none => simpa [pullEvent] using ih
     | some d => simpa [pullEvent] using ih
 
+/-! ### equivalence after include and mask -/
+
+theorem wf_old_new {V : View ι μ} {c : Change ι μ} (h : WFChange V c) :
+    c.old = V c.id ∧ apply c V c.id = c.new := by
+  rcases c with ⟨ci, ck, ct, co, cn, cs, cl⟩
+  cases ck <;> simp only [WFChange] at h <;> simp [apply, h]
+  all_goals simp_all
+
+/-- Suppressing the changes whose old and new value the equivalence equates keeps the subscriber's view
+`E`-related, id by id, to the true view — for a reflexive and transitive `E`. -/
+theorem equiv_hist (E : Option μ → Option μ → Bool) (hrefl : ∀ a, E a a = true)
+    (htrans : ∀ a b c, E a b = true → E b c = true → E a c = true)
+    (U V : View ι μ) (hUV : ∀ i, E (U i) (V i) = true) (cs : List (Change ι μ)) (h : WFHist V cs) :
+    ∀ i, E (fold (cs.filter (fun d => !E d.old d.new)) U i) (fold cs V i) = true := by
+  induction cs generalizing U V with
+  | nil => exact hUV
+  | cons c cs ih =>
+    obtain ⟨hc, hcs⟩ := h
+    obtain ⟨hold, hnew⟩ := wf_old_new hc
+    by_cases hE : E c.old c.new = true
+    · simp only [List.filter_cons, hE, Bool.not_true, Bool.false_eq_true, if_false, fold_cons]
+      apply ih U (apply c V) _ hcs
+      intro i
+      by_cases hi : i = c.id
+      · subst hi
+        rw [hnew]
+        exact htrans _ _ _ (hUV c.id) (by rw [← hold]; exact hE)
+      · rw [apply_other c V hi]; exact hUV i
+    · have hE' : E c.old c.new = false := by simpa using hE
+      simp only [List.filter_cons, hE', Bool.not_false, if_true, fold_cons]
+      apply ih (apply c U) (apply c V) _ hcs
+      intro i
+      by_cases hi : i = c.id
+      · subst hi
+        rw [apply_same, apply_same]
+        exact hrefl _
+      · rw [apply_other c U hi, apply_other c V hi]; exact hUV i
+
+omit [DecidableEq ι] in
+theorem filterMap_pullStep (p : Option (Pred ι μ)) (proj : μ → μ) (E : Option μ → Option μ → Bool)
+    (cs : List (Change ι μ)) :
+    cs.filterMap (pullStep p proj (some E)) =
+      (cs.filterMap (pullEvent p proj)).filter (fun d => !E d.old d.new) := by
+  induction cs with
+  | nil => rfl
+  | cons c cs ih =>
+    simp only [List.filterMap_cons, pullStep]
+    cases hp : pullEvent p proj c with
+    | none => simpa [pullStep] using ih
+    | some d =>
+      simp only [List.filter_cons]
+      by_cases hE : E d.old d.new = true
+      · simp only [hE, if_true, Bool.not_true, Bool.false_eq_true, if_false]
+        simpa [pullStep] using ih
+      · have hE' : E d.old d.new = false := by simpa using hE
+        simp only [hE', Bool.false_eq_true, if_false, Bool.not_false, if_true]
+        rw [← ih]
+
+omit [DecidableEq ι] in
+theorem filterMap_pullStep_none (p : Option (Pred ι μ)) (proj : μ → μ) (cs : List (Change ι μ)) :
+    cs.filterMap (pullStep p proj none) = cs.filterMap (pullEvent p proj) := by
+  induction cs with
+  | nil => rfl
+  | cons c cs ih =>
+    simp only [List.filterMap_cons, pullStep]
+    cases hp : pullEvent p proj c with
+    | none => simpa [pullStep] using ih
+    | some d => simp only; rw [← ih]
+
+/-- include ▸ mask on a well-formed history: well formed on the masked filtered view, folding to the
+masked filter of the fold. -/
+theorem pullEvent_hist (p : Option (Pred ι μ)) (proj : μ → μ) (s : View ι μ) (cs : List (Change ι μ))
+    (h : WFHist s cs) :
+    WFHist (projView proj (filterView p s)) (cs.filterMap (pullEvent p proj)) ∧
+    fold (cs.filterMap (pullEvent p proj)) (projView proj (filterView p s)) =
+      projView proj (filterView p (fold cs s)) := by
+  have hi := include_hist p s cs h
+  have hm := mask_hist proj (filterView p s) _ hi.1
+  rw [filterMap_pullEvent]
+  exact ⟨hm.1, by rw [hm.2, hi.2]⟩
+
 end ScVerif.C08
